@@ -60,6 +60,14 @@ def first_diff(a, b, path="$"):
 
 
 TEMPLATES = [
+    # a definition that is a structural twin of the root, referenced from another definition
+    {"type": "object", "title": "Point", "properties": {"x": {"type": "number"}, "y": {"type": "number"}},
+     "definitions": {"vector": {"type": "object", "title": "Vector", "properties": {"x": {"type": "number"}, "y": {"type": "number"}}},
+                     "segment": {"type": "object", "title": "Segment", "properties": {"direction": {"$ref": "#/definitions/vector"}}}}},
+    # an array property whose annotation is a bare List
+    {"type": "object", "title": "Holder", "properties": {"empty": {"type": "array", "items": [], "additionalItems": False}}},
+    {"type": "object", "title": "Holder2", "properties": {"t": {"type": "array", "items": [{"type": "string"}], "additionalItems": False},
+                                                         "u": {"type": "array", "items": [{"type": "string"}, {}]}, "v": {"type": "array"}}},
     {"type": "object", "title": "Root", "properties": {"class": {"type": "string", "default": ""}, "n": {"type": ["integer", "null"], "default": None},
                                                       "child": {"type": "object", "title": "Child", "required": ["a b"], "properties": {"a b": {"type": "integer"}}}},
      "required": ["class", "extra"], "additionalProperties": False},
@@ -149,8 +157,16 @@ def run(tier, seed, replay=None):
             try:
                 text = serialize_python(*e1)
                 ns = exec_module(text)
-            except BaseException as exc:  # noqa  (C02's subject: whether the module is generated and executes)
+            except BaseException as exc:  # noqa
                 ns = None
+                import findings as _f
+                from props.c12 import k2, k3
+                names_bad = any(k3(c.__name__) for c in classes) or any(k2(p.source or "") for c in classes for p in c.properties.values()) or _f.k1(J0)
+                doc_bad = any(isinstance(getattr(c, "description", None), str) and ('"""' in c.description or c.description.endswith('"') or "\\" in c.description)
+                              for c in classes)
+                if not (names_bad or doc_bad):
+                    res.violation(dict(payload, kind="oracle", what="the generated Python source cannot be produced/executed: %s: %s" % (type(exc).__name__, str(exc)[:150])))
+                    continue
             if ns is not None:
                 stats["python_checked"] += 1
                 for c in classes:
